@@ -203,4 +203,155 @@ theorem C11_put_local (t : Tx) (p : Path) (k v : Bytes) (Q : Path) (hQ : Q ≠ p
   refine ⟨fun k' => ?_, view_ext (fun k' => by rw [step_frame _ _ _ (hf k')])⟩
   simp only [getVal, step_frame _ _ _ (hf k')]
 
+/-! ## keys iterate in ascending byte order, in both directions -/
+
+/-- What a cursor or `ForEach` over a bucket sees is strictly ascending in byte order (`bytes.Compare`): keys and
+nested bucket names merged, no duplicates. -/
+theorem C11_cursor_sorted (d : DB) (p : Path) :
+    (view d p).Pairwise (fun a b => compare a.1 b.1 = .lt) :=
+  view_sorted d p
+
+/-- `ForEach` on an open transaction hands the callback exactly that ascending sequence (nested buckets with a nil
+value); a callback error after `n` entries stops it there. -/
+theorem C11_foreach_sorted (t : Tx) (p : Path) (ho : t.closed = false) (hb : isBucket t.work p = true) :
+    (step t (.forEach p none)).2 = .entries (view t.work p) false ∧
+    (view t.work p).Pairwise (fun a b => compare a.1 b.1 = .lt) := by
+  refine ⟨?_, view_sorted _ _⟩
+  simp [step, ho, hb]
+
+/-- **Forward iteration.**  `First` followed by any number of `Next` on a live cursor returns the entries of the
+bucket one by one in strictly ascending order and nil from the end on (the cursor then stays on the last entry). -/
+theorem C11_cursor_forward (t : Tx) (i : Nat) (P : Path) (pos : Option Nat) (h : LiveCursor t i P pos) (m : Nat) :
+    (runOps t (.curFirst i :: List.replicate m (.curNext i))).2 =
+      (List.range (m + 1)).map (fun j => Reply.entry (view t.work P)[j]?) ∧
+    (view t.work P).Pairwise (fun a b => compare a.1 b.1 = .lt) := by
+  refine ⟨?_, view_sorted _ _⟩
+  obtain ⟨hr, hl, hw⟩ := step_first_live h
+  have hl' : LiveCursor (step t (.curFirst i)).1 i P
+      (some (min 0 ((view (step t (.curFirst i)).1.work P).length - 1))) := by
+    rw [Nat.zero_min]; exact hl
+  rw [runOps_cons, next_iter m _ i P 0 hl', hw, hr, List.range_succ_eq_map, List.map_cons, List.map_map]
+  dsimp only
+  congr 1
+  apply List.map_congr_left
+  intro r _
+  simp only [Function.comp]
+  congr 2
+  omega
+
+/-- **Backward iteration.**  `Last` followed by any number of `Prev` returns the same entries in the reverse
+(strictly descending) order and nil from the beginning on. -/
+theorem C11_cursor_backward (t : Tx) (i : Nat) (P : Path) (pos : Option Nat) (h : LiveCursor t i P pos) (m : Nat) :
+    (runOps t (.curLast i :: List.replicate m (.curPrev i))).2 =
+      (List.range (m + 1)).map (fun j => Reply.entry (view t.work P).reverse[j]?) := by
+  obtain ⟨hr, hl, hw⟩ := step_last_live h
+  rw [runOps_cons, prev_iter m _ i P _ hl, hw, hr, List.range_succ_eq_map, List.map_cons, List.map_map]
+  dsimp only
+  generalize view t.work P = L
+  have hrev : ∀ j, L.reverse[j]? = if j < L.length then L[L.length - 1 - j]? else none := by
+    intro j
+    by_cases hj : j < L.length
+    · rw [List.getElem?_reverse hj, if_pos hj]
+    · rw [if_neg hj, List.getElem?_eq_none (by simpa using hj)]
+  congr 1
+  · rw [hrev 0]
+    by_cases h0 : 0 < L.length
+    · simp [h0]
+    · have : L = [] := by cases L <;> simp_all
+      simp [this]
+  · apply List.map_congr_left
+    intro r _
+    simp only [Function.comp]
+    rw [hrev (r + 1)]
+    by_cases h1 : r < L.length - 1
+    · have h2 : r + 1 < L.length := by omega
+      have e : L.length - 1 - 1 - r = L.length - 1 - (r + 1) := by omega
+      simp [h1, h2, e]
+    · have h2 : ¬ r + 1 < L.length := by omega
+      simp [h1, h2]
+
+/-- **Seek.**  `Seek k` answers the entry with the least key `≥ k` in byte order, or nil when every key is smaller. -/
+theorem C11_cursor_seek (t : Tx) (i : Nat) (P : Path) (pos : Option Nat) (h : LiveCursor t i P pos) (k : Bytes) :
+    ∃ r, (step t (.curSeek i k)).2 = .entry r ∧
+      match r with
+      | some e => e ∈ view t.work P ∧ compare e.1 k ≠ .lt ∧
+          ∀ e' ∈ view t.work P, compare e'.1 k ≠ .lt → e' = e ∨ compare e.1 e'.1 = .lt
+      | none => ∀ e' ∈ view t.work P, compare e'.1 k = .lt := by
+  refine ⟨_, (step_seek_live h k).1, ?_⟩
+  have := seekPos_spec (view t.work P) k (view_sorted _ _)
+  split at this
+  · rename_i e he; rw [he]; exact ⟨this.2.1, this.1, this.2.2⟩
+  · rename_i hn; rw [hn]; exact this
+
+/-- the hypotheses of the cursor theorems are satisfiable: opening a cursor on an existing bucket gives a live one. -/
+example : LiveCursor (step (Kind.update.begin (({} : DB).insert [[1]] (.bucket 0))) (.curOpen 0 [[1]])).1 0 [[1]] none := by
+  refine ⟨by simp [step, Tx.guardR, isBucket], ⟨⟨[[1]], none, false⟩, ?_, rfl, rfl, rfl⟩⟩
+  simp [step, Tx.guardR, isBucket, Tx.noteHandle, Tx.setCursor]
+
+/-! ## the store stays usable -/
+
+/-- **Still usable.**  Every transaction of every kind, with any program of API calls and any outcome — commit,
+error, panic, explicit `Commit`/`Rollback` — takes a well-formed store (every entry lives in an existing bucket,
+no empty keys, nothing at the root path) to a well-formed store.  The empty database is well-formed, so every
+reachable database is. -/
+theorem C11_wf_preserved (db : DB) (x : Txn) (w : WF db) (hapi : ∀ op ∈ x.prog, op.apiOk = true) :
+    WF (runTxn db x).1 := by
+  have ⟨wd, ww⟩ := runOps_wf (x.kind.begin db) x.prog w w hapi
+  simp only [runTxn]
+  cases hk : x.kind <;> cases ho : x.outcome <;>
+    simp only [finish, finishUpdate, finishView, finishManual] <;> (try split) <;>
+    first | exact (hk ▸ wd) | exact (hk ▸ ww)
+
+theorem C11_wf_history (h : List Txn) (hapi : ∀ x ∈ h, ∀ op ∈ x.prog, op.apiOk = true) :
+    WF (runHistory {} h).1 := by
+  suffices ∀ db, WF db → WF (runHistory db h).1 from this _ WF.empty
+  induction h with
+  | nil => intro db w; exact w
+  | cons x rest ih =>
+    intro db w
+    rw [runHistory_cons]
+    exact ih (fun y hy => hapi y (List.mem_cons_of_mem _ hy)) _
+      (C11_wf_preserved db x w (hapi x List.mem_cons_self))
+
+/-! ## histories -/
+
+/-- a transaction that cannot have committed leaves the database as it was. -/
+theorem C11_inert_txn (db : DB) (x : Txn) (h : x.inert = true) : (runTxn db x).1 = db := by
+  obtain ⟨kind, prog, o⟩ := x
+  have hc : ∀ {l : List Op}, (!l.contains Op.commit) = true → Op.commit ∉ l := by
+    intro l hl hm
+    simp at hl
+    exact hl hm
+  cases kind <;> simp only [Txn.inert] at h
+  · have ho : o ≠ .ok := by intro e; subst e; simp at h
+    have hno : Op.commit ∉ prog := hc (by simp only [Bool.and_eq_true] at h; exact h.2)
+    exact (C11_update_atomic db prog o hno ho).1
+  · exact (C11_view_readonly db prog o).1
+  · have ho : o ≠ .ok := by intro e; subst e; simp at h
+    exact C11_batch_atomic db prog o ho
+  · exact C11_manual_rollback db prog o (hc h)
+  · exact (C11_view_readonly db prog o).2
+
+/-- **Histories.**  In any sequence of transactions (committed, failed, panicking, read-only, hand-made), the ones
+that cannot have committed can be erased without changing the final database: the database is a function of the
+committing transactions alone. -/
+theorem C11_history_failed_erasable (db : DB) (h : List Txn) :
+    (runHistory db (h.filter (fun x => !x.inert))).1 = (runHistory db h).1 := by
+  induction h generalizing db with
+  | nil => rfl
+  | cons x rest ih =>
+    rw [runHistory_cons]
+    by_cases hx : x.inert = true
+    · rw [List.filter_cons_of_neg (by simp [hx]), C11_inert_txn db x hx]; exact ih db
+    · rw [List.filter_cons_of_pos (by simp [hx]), runHistory_cons]; exact ih _
+
+/-- …and every other transaction of the history gets the very same answers whether or not the failed one ran. -/
+theorem C11_history_failed_unobservable (db : DB) (h₁ h₂ : List Txn) (x : Txn) (hx : x.inert = true) :
+    (runHistory db (h₁ ++ x :: h₂)).1 = (runHistory db (h₁ ++ h₂)).1 ∧
+    ∃ rx, (runHistory db (h₁ ++ x :: h₂)).2 =
+            (runHistory db h₁).2 ++ rx :: (runHistory (runHistory db h₁).1 h₂).2 ∧
+          (runHistory db (h₁ ++ h₂)).2 = (runHistory db h₁).2 ++ (runHistory (runHistory db h₁).1 h₂).2 := by
+  rw [runHistory_append, runHistory_append, runHistory_cons, C11_inert_txn _ x hx]
+  exact ⟨rfl, _, rfl, rfl⟩
+
 end KV
